@@ -41,7 +41,8 @@ Print Assumptions timer_keys_disjoint.
    no timer, nothing deleted or overwritten can be in it by construction.
 
    Theorem: for EVERY DKV implementation K that refines the sorted-map specification (hypotheses = the statements of
-   C07/C18 for put/delete/scan and of C08 for checkpoint/restore), every key-group function, every handler (an
+   C07/C18 for put/delete/scan - a scan returns the prefix scan of the contents and a state with the same contents, so
+   that background work may proceed while it runs - and of C08 for checkpoint/restore), every key-group function, every handler (an
    arbitrary function from request to response), every watermark guard and every history of batches (any batching),
    timer removals, checkpoints and redeploys: the model of the operator never panics and the sequence of
    (request, response) pairs - in particular the KeyStates of every request - is exactly that of the specification
@@ -52,8 +53,8 @@ Theorem keyed_state_is_map :
   forall (K : KV) (contents : kv_st K -> kvlist),
     (forall k v s, contents (kv_put K k v s) = sm_put k v (contents s)) ->
     (forall k s, contents (kv_del K k s) = sm_del k (contents s)) ->
-    (forall p s, kv_scan K p s = sm_scan p (contents s)) ->
-    (forall s, contents (kv_restore K s) = contents s) ->
+    (forall p s, fst (kv_scan K p s) = sm_scan p (contents s) /\ contents (snd (kv_scan K p s)) = contents s) ->
+    (forall cur s, contents (kv_restore K cur s) = contents s) ->
   forall (count : N) (accept : bytes -> Z -> bool) (h : handler) (steps : list step) (s0 : kv_st K),
     contents s0 = [] -> handler_ok h -> Forall step_ok steps ->
     exists y, run K (key_group count) accept h (init_sys K s0) steps = Some y /\
@@ -72,6 +73,51 @@ Theorem keyed_state_is_map_over_spec :
               sy_trace y = o_trace (o_run h o_init steps).
 Proof. intros count. exact (refines_per_key_map_list (key_group count)). Qed.
 Print Assumptions keyed_state_is_map_over_spec.
+
+(* ---------------------------------------------------------------- keyed_state_is_map_over_lsm
+   "regardless of how the state has been batched, flushed or compacted underneath", as a theorem: the DKV is now
+   c07c18's LSM state machine (Model/Lsm.v: memtables with rotation, WAL limit, flush task F1/F2, compaction task
+   C1/C2 with the serial-queue discipline, reads in two halves), driven through Model/StateStoreLsm.v: every DB.Put,
+   DB.Delete and each half of every DB.ScanPrefix the operator performs is preceded by the background half-steps the
+   schedule [sc] prescribes there (any list of F1 F2 C1 C2; the ones not enabled are skipped) - every interleaving of
+   the sequential operator thread with the flush and compaction tasks is such a schedule.
+   For EVERY option setting (cfg_ok: >= 2 levels, table target >= 1, L0 trigger >= 1), EVERY schedule, handler,
+   watermark guard and history: the operator model over the LSM never panics and the handler-visible trace is that
+   of the specification machine. Proof: Proofs/C03_OverLsm.v instantiates the hypotheses of keyed_state_is_map with
+   contents := C07_Refine.absm, discharged by C07_Refine.step_ok (the invariant of dkv_reachable_invariant).
+   Restore: [reopen] is what dkv.Open makes of the database captured by Checkpoint - ANY function that returns a
+   database with the invariant, no read in flight and the same contents (the contract of C08). C08's own theorem
+   (checkpoint_exact_partial) is about a different database model (Model/Ckpt.v, pointwise db_get of owned keys, no
+   prefix scan), so it cannot discharge this hypothesis for Model/Lsm.v; it stays a hypothesis here, satisfiable
+   (keyed_state_is_map_over_lsm_reopen_id: the captured database itself). Histories without SRestore never use it. *)
+From RV Require Import Model.StateStoreLsm Proofs.C03_OverLsm.
+From RV Require Model.Lsm Model.LsmCompaction Proofs.C07_Refine.
+
+Theorem keyed_state_is_map_over_lsm :
+  forall (cfg : Lsm.dbcfg) (Hcfg : C07_Refine.cfg_ok cfg)
+         (reopen : Lsm.db -> Lsm.db)
+         (Hreopen : forall st, good st -> good (reopen st) /\ C07_Refine.absm (reopen st) = C07_Refine.absm st)
+         (count : N) (accept : bytes -> Z -> bool) (h : handler) (steps : list step) (sc : schedule),
+    handler_ok h -> Forall step_ok steps ->
+    exists y, run (lsm_kv cfg Hcfg reopen Hreopen) (key_group count) accept h
+                  (init_sys (lsm_kv cfg Hcfg reopen Hreopen) (lsm_init cfg Hcfg sc)) steps = Some y /\
+              sy_trace y = o_trace (o_run h o_init steps).
+Proof.
+  intros cfg Hcfg reopen Hreopen count accept h steps sc.
+  exact (refines_per_key_map_lsm cfg Hcfg reopen Hreopen (key_group count) accept h steps sc).
+Qed.
+Print Assumptions keyed_state_is_map_over_lsm.
+
+(* the restore contract is satisfiable *)
+Theorem keyed_state_is_map_over_lsm_reopen_id :
+  forall (cfg : Lsm.dbcfg) (Hcfg : C07_Refine.cfg_ok cfg)
+         (count : N) (accept : bytes -> Z -> bool) (h : handler) (steps : list step) (sc : schedule),
+    handler_ok h -> Forall step_ok steps ->
+    exists y, run (lsm_kv cfg Hcfg (fun d => d) reopen_id_ok) (key_group count) accept h
+                  (init_sys (lsm_kv cfg Hcfg (fun d => d) reopen_id_ok) (lsm_init cfg Hcfg sc)) steps = Some y /\
+              sy_trace y = o_trace (o_run h o_init steps).
+Proof. intros cfg Hcfg. exact (keyed_state_is_map_over_lsm cfg Hcfg (fun d => d) reopen_id_ok). Qed.
+Print Assumptions keyed_state_is_map_over_lsm_reopen_id.
 
 (* ---------------------------------------------------------------- namespaces_contiguous
    Whatever responses the handler returned (guards as above), the state handed over for k - the grouping of the
@@ -118,4 +164,24 @@ Example ex_run :
            [([97], [([], [([], [])]); ([1], [([2], [3])])])];
            [([97], [([], [([], [])])])];
            [([97], [([], [([], [])]); ([1], [([2], [3])])])] ].
+Proof. vm_compute. reflexivity. Qed.
+
+(* the LSM instance computes, and the schedule really flushes and compacts underneath: 19-byte memtables, every
+   foreground action preceded by F1 F2 C1 C2 C1 C2. Same KeyStates as over the list specification (ex_run), while the
+   database ends with its data in sstable levels. *)
+Definition ex_lsm_cfg : Lsm.dbcfg := Lsm.mkDbCfg 19 1000000 6 (LsmCompaction.mkCfg 1 200 1 30).
+Example ex_lsm_cfg_ok : C07_Refine.cfg_ok ex_lsm_cfg.
+Proof. unfold C07_Refine.cfg_ok, ex_lsm_cfg. cbn. repeat split; lia. Qed.
+Definition ex_sched : schedule := repeat [Lsm.AF1; Lsm.AF2; Lsm.AC1; Lsm.AC2; Lsm.AC1; Lsm.AC2] 60.
+Definition ex_lsm_kv : KV := lsm_kv ex_lsm_cfg ex_lsm_cfg_ok (fun d => d) reopen_id_ok.
+
+Example ex_run_over_lsm :
+  option_map (fun y : sys ex_lsm_kv => (map (fun rr => rq_states (fst rr)) (sy_trace y),
+                        existsb (fun l => negb (match l with [] => true | _ => false end)) (Lsm.lv (fst (proj1_sig (sy_db y : lsm_st))))))
+    (run ex_lsm_kv (key_group 7) (fun _ _ => true) ex_handler (init_sys ex_lsm_kv (lsm_init ex_lsm_cfg ex_lsm_cfg_ok ex_sched))
+       [SBatch [([97], []); ([97; 98], []); ([97], [])]; SCkpt 1; SBatch [([97], [])]; SBatch [([97], [])]; SRestore 1; SBatch [([97], [])]])
+  = Some ([ [([97], []); ([97; 98], [])];
+            [([97], [([], [([], [])]); ([1], [([2], [3])])])];
+            [([97], [([], [([], [])])])];
+            [([97], [([], [([], [])]); ([1], [([2], [3])])])] ], true).
 Proof. vm_compute. reflexivity. Qed.
